@@ -9,6 +9,8 @@ def run(ctx):
     # packed STRANS flag word: both sides place each flag on the manual's bit, hence on the same bit
     gr.rule_strans_bits_writer(ctx, g, "R01.2w")
     gr.rule_emission_purity(ctx, g, "R01.6")
+    gr.rule_string_padding(ctx, g, "R01.7")
+    gr.rule_payload_verbatim(ctx, g, "R01.8")
     gr.rule_strans_bits_reader(ctx, g, "R01.2r")
     # framing both ways: what the writer frames is what the reader unframes, and reading back cannot crash
     gr.rule_writer_header(ctx, g, "R01.3")
